@@ -21,6 +21,8 @@ CONFIG = '''taint-tracking-problems:
 GO_FORMS = ["named", "lit_cap", "lit_nocap", "method_ptr", "method_val", "method_value", "method_expr",
             "funcvar", "funcfield", "funcparam", "iface", "generic", "generic_launch", "generic_launch"]
 DEFER_FORMS = ["none", "none", "rec_lit", "rec_named", "norec", "rec_nested", "rec_helper", "rec_method"]
+# forms that only matter to C19 (programs generated with fault points); kept out of the C13/C14 program stream
+DEFER_FORMS_FAULTS = DEFER_FORMS + ["var_phi_norec", "var_phi_rec", "var_rec"]
 PARAMS = "a *S, b *S, c chan string, cs chan *S, done chan bool"
 ARGN = 5
 
@@ -30,7 +32,7 @@ class Worker:
         self.k, self.form, self.dform = k, form, dform
         self.go_line = 0
         self.entry = ""      # name of the entry function as the may-panic report prints it (RelString(nil))
-        self.recovers = dform in ("rec_lit", "rec_named", "rec_method")
+        self.recovers = dform in ("rec_lit", "rec_named", "rec_method", "var_phi_rec", "var_rec")
         self.fault_lines = []
         self.first_line = self.last_line = 0
         self.twin_entry = ""
@@ -50,7 +52,7 @@ class Gen:
         self.workers = []
         for k in range(self.nworkers):
             form = rng.pick(forms or GO_FORMS)
-            self.workers.append(Worker(k, form, rng.pick(dforms or DEFER_FORMS)))
+            self.workers.append(Worker(k, form, rng.pick(dforms or (DEFER_FORMS_FAULTS if faults else DEFER_FORMS))))
         self.sends = {"c1": 0, "c2": 0, "cs1": 0}   # planned sends per main-level channel
         self.recvs = {"c1": 0, "c2": 0, "cs1": 0}
         self.source_lines, self.sink_lines = [], []
@@ -354,6 +356,13 @@ class Gen:
         elif d == "rec_method":
             # the deferred function is a method that calls recover directly: it DOES stop the panic
             self.emit("defer GR.rec()")
+        elif d == "var_phi_norec":
+            # the deferred function value is chosen at run time; on the path taken it does not recover
+            self.emit("h := noop; if GB { h = rec }; defer h()")
+        elif d == "var_phi_rec":
+            self.emit("h := noop; if !GB { h = rec }; defer h()")
+        elif d == "var_rec":
+            self.emit("h := GH; defer h()")
         n = self.stmts
         cut = self.rng.below(n + 1)
         self.body(env, cut)
@@ -405,6 +414,10 @@ class Gen:
         e("func fault(n int) bool { return false }")
         e("func cond(i int) bool  { return i%2 == 0 }")
         e("func rec()             { recover() }")
+        if self.faults:
+            e("func noop()            {}")
+            e("var GB bool")
+            e("var GH = rec")
         e("type Rc struct{}")
         e("func (Rc) rec()        { recover() }")
         e("var GR Rc")
